@@ -67,14 +67,14 @@ claim("C03", "fault_enumeration",
       "DESIGN.md §5 C03")
 
 claim("C04", "model_checking",
-      "Handler.tla is checked exhaustively (3 parties, one Byzantine using valid, equivocated, failing, undecodable and protocol-detected payloads, wrong message kinds, abort notices; every delivery order) for BlameSound (a self-detected error names only the deviating party), EchoNamesNobody and NoticeBlame; TLC rejects the pre-fix ordering (echo compared only in finalize) as a negative control. The deviations of FaultCat.tla (field alterations, header malformations, every equivocation scenario) are run on real protocols with exactly one deviating real party; the harness knows who deviated and checks Culprits at every honest party, and every recorded API call is validated against Handler.tla with the blame invariants evaluated in every state.",
-      "Exhaustive for 3 parties in the model; real protocols by catalogue (CMP sampled). The presign identifiable-abort rounds with a state-level cheater are covered only as far as message alterations reach them.",
-      "TLC model checking of Handler.tla blame invariants + TLC-enumerated deviations run on real protocols + trace validation",
+      "Handler.tla is checked exhaustively (3 parties, one Byzantine using valid, equivocated, failing, undecodable and protocol-detected payloads, wrong message kinds, abort notices; every delivery order) for BlameSound (a self-detected error names only the deviating party), EchoNamesNobody and NoticeBlame; TLC rejects the pre-fix ordering (echo compared only in finalize) as a negative control. The deviations of FaultCat.tla (field alterations, header malformations, every equivocation scenario) are run on real protocols with exactly one deviating real party; the harness knows who deviated and checks Culprits at every honest party, and every recorded API call is validated against Handler.tla with the blame invariants evaluated in every state. PresignAlg.tla models the algebra of CMP presigning and of its identification rounds over Z_3 / Z_5 / Z_7 (what the proofs leave free: the broadcast delta share, the committed chi share, the stored k / chi share): TLC checks that the recomputation formulas of abort1 / abort2 and the per-share sigma check single out exactly the deviating signer and at which stage, and prints the deviation catalogue; each case is run on the real protocol with a state-level cheater whose proofs pass (offline, full and online variants, every position) and stage and culprits are compared. The as-coded variant of the model (proofs checked against the wrong ciphertext slot) must violate BlameExact: it is the model-level account of the known finding.",
+      "Exhaustive for 3 parties in the model; real protocols by catalogue (CMP sampled). The cheater scenarios of presigning are judged by culprits and stage; they are not replayed against Handler.tla (fixed round shape).",
+      "TLC model checking of Handler.tla blame invariants and PresignAlg.tla + TLC-enumerated deviations run on real protocols + trace validation",
       "DESIGN.md §3.1, §5 C04")
 
 claim("C05", "fault_enumeration",
       "FaultCat.tla (TLC) enumerates message slot x field path x structural malformation (null, absent, truncated, extended, empty, 5000-element collections, all-zero / all-one / random bytes) and slot x 17 header malformations (recipient, sender, round 0 / past / too big, SSID, protocol, nil / empty / junk / truncated data, flipped broadcast flag, echo field) x cheater x recipient, with the reaction Handler.tla allows (ignore, store, clean abort naming the sender). Each case is delivered to real honest handlers in child processes with an address-space limit; the recorded API calls are validated against Handler.tla by TLC. A panic, a hang, a call exceeding its time limit or the death of the process (e.g. out of memory) is attributed to the exact input and reported with the crashing site.",
-      "Handlers run with a nil pool (a panic inside a pool worker would look the same to the user but is not separately observed). Memory and time are measured, not modelled. Byte strings off the malformation lattice are sampled.",
+      "Handlers run with a nil pool except in the pool-mode scenarios (CMP; one null / absent case per field name). Memory and time are measured, not modelled. Byte strings off the malformation lattice are sampled; announced counts are probed at 2^32-1, 2^31 and the 32-bit overflow points of element sizes up to 72 (and 96, 128, 256).",
       "TLC-enumerated malformation catalogue (FaultCat.tla) delivered to real handlers in isolated processes + trace validation against Handler.tla",
       "DESIGN.md §5 C05")
 
